@@ -1,12 +1,761 @@
-//! C11 - not implemented yet
-use crate::common::Report;
+//! C11 - Graph-building API keeps contexts well-formed; failed calls have no effect.
+//!
+//! Explicit-state BFS over API-call histories executed on REAL Context/Graph/Node objects.
+//! * state = (prelude, history of successful calls); dedup key = hash of the observation of the real
+//!   objects (public getters + serde_json::to_string(&context) of both contexts);
+//! * every transition rebuilds the real objects by replaying the history and applies one more real call;
+//! * engine 1 (all checks): in-crate level-synchronous BFS, rayon over the frontier, merged in order;
+//! * engine 2 (cross-check): the same transition function as a stateright 0.31 `Model`, parallel BFS
+//!   with `target_max_depth`; unique state counts of both engines must agree.
+mod alpha;
+mod model;
+mod real;
 
-pub fn run(_r: &Report) -> i32 {
-    println!("MACHINERY-ERROR property=C11 check not implemented");
-    2
+use crate::common::Report;
+use alpha::*;
+use model::{Model, Why};
+use rayon::prelude::*;
+use real::{observe, Obs, Out, World};
+use serde_json::{json, Value as J};
+use stateright::{Checker, Model as SrModelTrait, Property};
+use std::collections::{BTreeMap, HashSet};
+use std::hash::{Hash, Hasher};
+use std::sync::atomic::{AtomicU64, Ordering};
+use std::sync::Arc;
+
+const LIMITS: (u64, u64) = (1000, 10000);
+
+struct Env {
+    alpha: Vec<Act>,
+    preludes: Vec<(&'static str, Vec<Act>)>,
+    limits: Option<(u64, u64)>,
 }
 
-pub fn replay(_r: &Report, _rec: &serde_json::Value) -> i32 {
-    println!("MACHINERY-ERROR property=C11 replay not implemented");
-    2
+#[derive(Clone, Debug)]
+struct St {
+    prelude: usize,
+    hist: Vec<u8>,
+    model: Model,
+    dh: u128,
+}
+
+struct Viol {
+    sig: String,
+    what: String,
+    case: J,
+}
+
+#[derive(Default)]
+struct Expansion {
+    succ: Vec<St>,
+    cnt: BTreeMap<&'static str, u64>,
+    viols: Vec<Viol>,
+    samples: Vec<(&'static str, J)>,
+}
+impl Expansion {
+    fn c(&mut self, k: &'static str) {
+        *self.cnt.entry(k).or_insert(0) += 1;
+    }
+}
+
+impl Env {
+    fn new(limits: Option<(u64, u64)>) -> Env {
+        Env { alpha: alphabet(), preludes: preludes(), limits }
+    }
+
+    /// fresh real objects for (prelude . history); every replayed call must succeed again
+    fn build(&self, prelude: usize, hist: &[u8]) -> Result<World, String> {
+        let w = World::new();
+        for a in self.preludes[prelude].1.iter().chain(hist.iter().map(|i| &self.alpha[*i as usize])) {
+            let o = w.exec(a);
+            if !o.is_ok() {
+                return Err(format!("replayed call {:?} gives {}", a, o.show()));
+            }
+        }
+        Ok(w)
+    }
+
+    fn init(&self, prelude: usize) -> Result<(St, Obs), String> {
+        let mut m = Model::new(self.limits);
+        for a in self.preludes[prelude].1.iter() {
+            m.apply(a).map_err(|w| format!("prelude {}: model rejects {:?}: {:?}", self.preludes[prelude].0, a, w))?;
+        }
+        let w = self.build(prelude, &[]).map_err(|e| format!("prelude {}: {}", self.preludes[prelude].0, e))?;
+        let o = observe(&w, true)?;
+        Ok((St { prelude, hist: vec![], model: m, dh: o.hash() }, o))
+    }
+
+    fn case(&self, st: &St, check: &str, action: Option<usize>, cont: Option<usize>) -> J {
+        json!({
+            "check": check,
+            "prelude": st.prelude,
+            "prelude_name": self.preludes[st.prelude].0,
+            "history": st.hist,
+            "history_calls": st.hist.iter().map(|i| format!("{:?}", self.alpha[*i as usize])).collect::<Vec<_>>(),
+            "action": action,
+            "action_call": action.map(|i| format!("{:?}", self.alpha[i])),
+            "continuation": cont,
+            "continuation_call": cont.map(|i| format!("{:?}", self.alpha[i])),
+            "limits_build": self.limits.is_some(),
+        })
+    }
+
+    /// model conformance + invariants of the state observed after `a` (or of an initial state)
+    fn check_state(&self, m: &Model, o: &Obs, tag: &str, out: &mut Vec<(String, String)>) {
+        for (name, msg) in o.broken.iter() {
+            out.push((format!("C11:invariant:{}", name), msg.clone()));
+        }
+        let mt = m.text();
+        if mt != o.text {
+            let (e, g) = first_diff(&mt, &o.text);
+            out.push((
+                format!("C11:dump-mismatch:{}", tag),
+                format!("public getters disagree with the reference model: expected `{}` observed `{}`", e, g),
+            ));
+        }
+        if let Some(d) = &o.data {
+            for c in [Cx::A, Cx::B] {
+                let exp = m.json(c);
+                if exp != d[c.ix()] {
+                    out.push((
+                        format!("C11:serialized-mismatch:{}", tag),
+                        format!("serialized ctx{} differs from the reference model: expected {} observed {}", c.ix(), exp, d[c.ix()]),
+                    ));
+                }
+            }
+        }
+    }
+
+    /// Executes every enabled action on a fresh replay of the state (baseline), checks each transition,
+    /// then runs the differential continuation for every failing transition.
+    /// `only` restricts to one action (replay mode).
+    fn expand(&self, st: &St, only: Option<(usize, Option<usize>)>) -> Expansion {
+        let mut ex = Expansion::default();
+        let enabled: Vec<usize> = (0..self.alpha.len()).filter(|i| st.model.enabled(&self.alpha[*i])).collect();
+        // baseline[i] = (outcome, dump hash) of (h . a_i)
+        let mut baseline: BTreeMap<usize, (Out, u128)> = BTreeMap::new();
+        // calls without observable effect: rejected calls and no-op successes, with a label of the reason
+        let mut failing: Vec<(usize, String)> = vec![];
+        for &ai in enabled.iter() {
+            if let Some((oa, oc)) = only {
+                // replay mode: the action itself, plus the continuation baseline
+                if ai != oa && Some(ai) != oc {
+                    continue;
+                }
+            }
+            let a = &self.alpha[ai];
+            let kind = a.kind();
+            let w = match self.build(st.prelude, &st.hist) {
+                Ok(w) => w,
+                Err(e) => {
+                    ex.viols.push(Viol {
+                        sig: "C11:replay-nondeterministic".into(),
+                        what: format!("replaying a history of successful calls fails: {}", e),
+                        case: self.case(st, "transition", Some(ai), None),
+                    });
+                    continue;
+                }
+            };
+            let out = w.exec(a);
+            ex.c("transitions");
+            ex.c("evaluations");
+            let obs = match observe(&w, true) {
+                Ok(o) => o,
+                Err(p) => {
+                    ex.viols.push(Viol {
+                        sig: format!("C11:panic:observe-after:{}", kind),
+                        what: format!("getters / serializer panic after {:?}: {}", a, p),
+                        case: self.case(st, "transition", Some(ai), None),
+                    });
+                    continue;
+                }
+            };
+            let h = obs.hash();
+            let mut m2 = st.model.clone();
+            let pred = m2.apply(a);
+            let mut problems: Vec<(String, String)> = vec![];
+            if let Out::Panic(p) = &out {
+                problems.push((format!("C11:panic:{}", kind), format!("{:?} panics: {}", a, p)));
+            }
+            match (&pred, out.is_ok()) {
+                (Ok(()), false) => problems.push((
+                    format!("C11:outcome:{}:rejected-but-valid", kind),
+                    format!("{:?} must succeed, observed {}", a, out.show()),
+                )),
+                (Err(why), true) => problems.push((
+                    format!("C11:outcome:{}:accepted-but-invalid:{:?}", kind, why),
+                    format!("{:?} must be rejected ({:?}), observed Ok", a, why),
+                )),
+                _ => {}
+            }
+            ex.c("traces_validated_against_impl");
+            self.check_state(&m2, &obs, &format!("after-{}-{}", kind, if out.is_ok() { "ok" } else { "err" }), &mut problems);
+            if !out.is_ok() && h != st.dh {
+                let why = pred.err().map(|w| format!("{:?}", w)).unwrap_or_else(|| "unexpected".into());
+                problems.push((
+                    format!("C11:failed-call-changed-state:{}:{}", kind, why),
+                    format!("{:?} returned {} but the observable state changed", a, out.show()),
+                ));
+            }
+            let clean_state = problems.is_empty();
+            for (sig, what) in problems {
+                ex.viols.push(Viol { sig, what, case: self.case(st, "transition", Some(ai), None) });
+            }
+            baseline.insert(ai, (out.clone(), h));
+            if out.is_ok() {
+                match a {
+                    Act::Call(..) => ex.c("call_ok"),
+                    Act::Iterate(..) => ex.c("iterate_ok"),
+                    Act::Not(..) => ex.c("custom_ok"),
+                    Act::FinalizeCtx(..) => ex.c("context_finalize_ok"),
+                    _ => {}
+                }
+                if h == st.dh {
+                    ex.c("noop_success_transitions");
+                    failing.push((ai, "NoopOk".into()));
+                } else {
+                    ex.c("successful_transitions");
+                    // a state that already violates something is reported once and not explored further
+                    if pred.is_ok() && clean_state {
+                        let mut hist = st.hist.clone();
+                        hist.push(ai as u8);
+                        ex.succ.push(St { prelude: st.prelude, hist, model: m2, dh: h });
+                    }
+                }
+            } else {
+                ex.c("failing_transitions");
+                let why = pred.err();
+                let key: &'static str = match why {
+                    Some(Why::TypeError) => "rollback_type_error",
+                    Some(Why::SizeIndividual) => "rollback_size_individual",
+                    Some(Why::SizeTotal) => "rollback_size_total",
+                    Some(Why::GraphFinalized) | Some(Why::OutputAlreadySet)
+                        if a.adds_node_to().is_some() || matches!(a, Act::SetOutput(..)) =>
+                    {
+                        "reject_in_finalized_graph"
+                    }
+                    Some(Why::BadNodeDeps) => "reject_bad_node_dependency",
+                    Some(Why::BadCallee) => "reject_bad_callee",
+                    Some(Why::ForeignCtx) => "reject_foreign_context",
+                    Some(Why::NameTwice) | Some(Why::NameTaken) => "reject_name_clash",
+                    _ => "reject_other",
+                };
+                ex.c(key);
+                if st.model.ctx[0].finalized && !matches!(a, Act::CreateGraph(Cx::B) | Act::Input(G(Cx::B, _), _) | Act::Add(G(Cx::B, _), ..) | Act::SetOutput(G(Cx::B, _), _) | Act::Finalize(G(Cx::B, _))) {
+                    ex.c("reject_in_finalized_context");
+                }
+                if let Some(wy) = why {
+                    if wy.is_rollback() {
+                        ex.samples.push((key, json!({"prelude": self.preludes[st.prelude].0,
+                            "history": st.hist.iter().map(|i| format!("{:?}", self.alpha[*i as usize])).collect::<Vec<_>>(),
+                            "failing_call": format!("{:?}", a), "library_error": out.show(), "model_reason": format!("{:?}", wy)})));
+                    }
+                    failing.push((ai, format!("{:?}", wy)));
+                } else {
+                    failing.push((ai, "Unexpected".into())); // outcome violation already reported; still check residue
+                }
+            }
+        }
+
+        // differential continuation: (h . f . a) must behave like (h . a) for every a
+        for (fi, why) in failing.iter() {
+            let fi = *fi;
+            if let Some((oa, _)) = only {
+                if fi != oa {
+                    continue;
+                }
+            }
+            let f = &self.alpha[fi];
+            let rebuild = || -> Result<World, String> {
+                let w = self.build(st.prelude, &st.hist)?;
+                let o = w.exec(f);
+                if o != baseline[&fi].0 {
+                    return Err(format!("failing call {:?} gives {} on a second run, first {}", f, o.show(), baseline[&fi].0.show()));
+                }
+                Ok(w)
+            };
+            let mut w = match rebuild() {
+                Ok(w) => w,
+                Err(e) => {
+                    ex.viols.push(Viol { sig: "C11:replay-nondeterministic".into(), what: e, case: self.case(st, "continuation", Some(fi), None) });
+                    continue;
+                }
+            };
+            ex.c("continuation_rebuilds");
+            let mut dirty = false;
+            let mut chain: Vec<usize> = vec![]; // effect-free calls executed on `w` since the last rebuild
+            for &ai in enabled.iter() {
+                if let Some((_, Some(oc))) = only {
+                    if ai != oc {
+                        continue;
+                    }
+                }
+                let base = match baseline.get(&ai) {
+                    Some(b) => b,
+                    None => continue,
+                };
+                if dirty {
+                    w = match rebuild() {
+                        Ok(w) => w,
+                        Err(_) => break,
+                    };
+                    ex.c("continuation_rebuilds");
+                    dirty = false;
+                    chain.clear();
+                }
+                let a = &self.alpha[ai];
+                let run = |w: &World| -> (Out, u128) {
+                    let o = w.exec(a);
+                    let h = observe(w, false).map(|o| o.hash()).unwrap_or(0);
+                    (o, h)
+                };
+                let got = run(&w);
+                ex.c("continuations");
+                ex.c("evaluations");
+                if got.1 != st.dh {
+                    dirty = true;
+                }
+                if got != *base {
+                    // attribute: repeat on a clean (h . f)
+                    let clean = rebuild().map(|w2| run(&w2));
+                    dirty = true;
+                    match clean {
+                        Ok(c) if c != *base => ex.viols.push(Viol {
+                            sig: format!("C11:residue:{}:{}", f.kind(), why),
+                            what: format!(
+                                "after the effect-free call {:?} ({}), {:?} gives {} / dump {:032x}; without that call it gives {} / dump {:032x}",
+                                f, baseline[&fi].0.show(), a, c.0.show(), c.1, base.0.show(), base.1
+                            ),
+                            case: self.case(st, "continuation", Some(fi), Some(ai)),
+                        }),
+                        _ => {
+                            // a call of the chain is the culprit; if it is one call c alone, (h . c . a) differs too and
+                            // c's own continuation loop reports it with c's signature
+                            let single = chain.iter().any(|c| {
+                                self.build(st.prelude, &st.hist)
+                                    .map(|w3| {
+                                        w3.exec(&self.alpha[*c]);
+                                        run(&w3) != *base
+                                    })
+                                    .unwrap_or(false)
+                            });
+                            if single {
+                                ex.c("chain_mismatches_attributed_to_one_call");
+                            } else {
+                                let mut case = self.case(st, "chain", Some(fi), Some(ai));
+                                case["chain"] = json!(chain);
+                                ex.viols.push(Viol {
+                                    sig: "C11:residue-after-chain-of-effect-free-calls".into(),
+                                    what: format!(
+                                        "after {:?} and the effect-free calls {:?}, {:?} gives {} / dump {:032x}; on the unchanged state it gives {} / dump {:032x}",
+                                        f, chain.iter().map(|c| format!("{:?}", self.alpha[*c])).collect::<Vec<_>>(), a, got.0.show(), got.1, base.0.show(), base.1
+                                    ),
+                                    case,
+                                });
+                            }
+                        }
+                    }
+                } else if got.1 == st.dh {
+                    chain.push(ai);
+                }
+            }
+        }
+        ex
+    }
+}
+
+fn first_diff(a: &str, b: &str) -> (String, String) {
+    let (la, lb): (Vec<&str>, Vec<&str>) = (a.lines().collect(), b.lines().collect());
+    for i in 0..la.len().max(lb.len()) {
+        let (x, y) = (la.get(i).copied().unwrap_or("<missing>"), lb.get(i).copied().unwrap_or("<missing>"));
+        if x != y {
+            return (x.trim().to_string(), y.trim().to_string());
+        }
+    }
+    ("".into(), "".into())
+}
+
+// ---------------------------------------------------------------------------------------------
+// engine 2: the same transition system as a stateright Model (state invariants as `always` property)
+
+#[derive(Clone, Debug)]
+struct SrState {
+    st: St,
+    bad: bool,
+}
+impl PartialEq for SrState {
+    fn eq(&self, o: &Self) -> bool {
+        self.st.prelude == o.st.prelude && self.st.dh == o.st.dh
+    }
+}
+impl Eq for SrState {}
+impl Hash for SrState {
+    fn hash<H: Hasher>(&self, h: &mut H) {
+        self.st.prelude.hash(h);
+        self.st.dh.hash(h);
+    }
+}
+
+struct SrModel {
+    env: Arc<Env>,
+    transitions: Arc<AtomicU64>,
+}
+
+impl SrModelTrait for SrModel {
+    type State = SrState;
+    type Action = u8;
+    fn init_states(&self) -> Vec<SrState> {
+        (0..self.env.preludes.len())
+            .filter_map(|p| self.env.init(p).ok())
+            .map(|(st, o)| {
+                let mut pr = vec![];
+                self.env.check_state(&st.model, &o, "init", &mut pr);
+                SrState { st, bad: !pr.is_empty() }
+            })
+            .collect()
+    }
+    fn actions(&self, s: &SrState, actions: &mut Vec<u8>) {
+        for (i, a) in self.env.alpha.iter().enumerate() {
+            if s.st.model.enabled(a) {
+                actions.push(i as u8);
+            }
+        }
+    }
+    fn next_state(&self, s: &SrState, ai: u8) -> Option<SrState> {
+        // rebuild real objects by replaying the history, apply one more real call
+        let a = &self.env.alpha[ai as usize];
+        let w = self.env.build(s.st.prelude, &s.st.hist).ok()?;
+        let out = w.exec(a);
+        self.transitions.fetch_add(1, Ordering::Relaxed);
+        let obs = observe(&w, true).ok()?;
+        let h = obs.hash();
+        if !out.is_ok() || h == s.st.dh {
+            return None; // failing / no-op calls are self-loops
+        }
+        let mut m2 = s.st.model.clone();
+        let pred = m2.apply(a);
+        let mut pr = vec![];
+        self.env.check_state(&m2, &obs, "sr", &mut pr);
+        let mut hist = s.st.hist.clone();
+        hist.push(ai);
+        Some(SrState { st: St { prelude: s.st.prelude, hist, model: m2, dh: h }, bad: pred.is_err() || !pr.is_empty() })
+    }
+    fn properties(&self) -> Vec<Property<Self>> {
+        vec![
+            Property::always("wellformed and equal to the reference model", |_, s: &SrState| !s.bad),
+            // never discovered: keeps the checker exploring the whole bounded space
+            Property::sometimes("unreachable", |_, _| false),
+        ]
+    }
+}
+
+// ---------------------------------------------------------------------------------------------
+
+/// probes which size limits the linked ciphercore-base was built with
+fn probe_limits() -> bool {
+    let w = World::new();
+    w.exec(&Act::CreateGraph(Cx::A));
+    !w.exec(&Act::Input(A0, Ty::I32x300)).is_ok()
+}
+
+fn report_viols(r: &Report, viols: Vec<Viol>) {
+    for v in viols {
+        r.violation(&v.sig, &v.what, v.case);
+    }
+}
+
+pub fn run(r: &Report) -> i32 {
+    std::env::set_var("RUST_LIB_BACKTRACE", "0");
+    let thorough = r.tier.thorough();
+    let cfg_limits = cfg!(feature = "limits");
+    let probe = probe_limits();
+    r.extra("limits_build", json!(probe));
+    r.extra("limits_feature_of_harness", json!(cfg_limits));
+    let env = Arc::new(Env::new(if cfg_limits { Some(LIMITS) } else { None }));
+    if cfg_limits && !probe {
+        r.violation(
+            "C11:limits:individual-size-not-enforced",
+            "built with the fuzzing limits, but an input of type i32[300] (9633 bits > MAX_INDIVIDUAL_NODE_SIZE = 1000) is accepted",
+            json!({"check": "probe"}),
+        );
+    }
+    if !cfg_limits && probe {
+        println!("MACHINERY-ERROR property=C11 i32[300] input rejected although the harness was built without `limits`");
+        return 2;
+    }
+    r.extra("alphabet", json!(env.alpha.iter().map(|a| format!("{:?}", a)).collect::<Vec<_>>()));
+    r.extra("alphabet_size", json!(env.alpha.len()));
+    r.extra("preludes", json!(env.preludes.iter().map(|(n, p)| json!({"name": n, "calls": p.len()})).collect::<Vec<_>>()));
+
+    let target_depth: usize = std::env::var("C11_DEPTH").ok().and_then(|s| s.parse().ok()).unwrap_or(if thorough { 7 } else { 5 });
+    let budget: f64 = std::env::var("C11_BUDGET_S").ok().and_then(|s| s.parse().ok()).unwrap_or(if thorough { 700.0 } else { 30.0 });
+    let total_budget: f64 = if thorough { 880.0 } else { 43.0 };
+
+    // ---- engine 1: level-synchronous BFS with all checks
+    let mut frontier: Vec<St> = vec![];
+    let mut seen: HashSet<(usize, u128)> = HashSet::new();
+    for p in 0..env.preludes.len() {
+        match env.init(p) {
+            Ok((st, o)) => {
+                let mut pr = vec![];
+                env.check_state(&st.model, &o, "init", &mut pr);
+                r.count("traces_validated_against_impl", 1);
+                r.count("evaluations", 1);
+                for (sig, what) in pr {
+                    r.violation(&sig, &what, env.case(&st, "state", None, None));
+                }
+                seen.insert((p, st.dh));
+                r.distinct(st.dh as u64 ^ p as u64);
+                frontier.push(st);
+            }
+            Err(e) => {
+                println!("MACHINERY-ERROR property=C11 cannot build start state: {}", e);
+                return 2;
+            }
+        }
+    }
+    let mut per_depth = vec![frontier.len() as u64];
+    let mut completed = 0usize;
+    let mut sample_seen: HashSet<&'static str> = HashSet::new();
+    let mut last_cost = 0.0f64; // seconds per expanded state in the last level
+    for depth in 0..target_depth {
+        if frontier.is_empty() {
+            completed = target_depth;
+            break;
+        }
+        let est = last_cost * 1.15 * frontier.len() as f64;
+        if depth > 0 && r.elapsed() + est > budget {
+            r.cap_hit(&format!(
+                "time budget {:.0}s: depth {} not started ({} states to expand, estimated {:.0}s); deepest fully explored depth = {}",
+                budget, depth + 1, frontier.len(), est, completed
+            ));
+            break;
+        }
+        let t0 = r.elapsed();
+        let mut level_cnt: BTreeMap<&'static str, u64> = BTreeMap::new();
+        let mut level_viols: Vec<Viol> = vec![];
+        let mut level_samples: Vec<(&'static str, J)> = vec![];
+        let mut next: Vec<St> = vec![];
+        let mut new_keys: Vec<(usize, u128)> = vec![];
+        let mut aborted = false;
+        let mut n_new = 0u64;
+        let mut r_distinct: Vec<u64> = vec![];
+        for chunk in frontier.chunks(512) {
+            if r.elapsed() > budget {
+                aborted = true;
+                break;
+            }
+            let exps: Vec<Expansion> = chunk.par_iter().map(|st| env.expand(st, None)).collect();
+            for ex in exps {
+                for (k, v) in ex.cnt {
+                    *level_cnt.entry(k).or_insert(0) += v;
+                }
+                level_viols.extend(ex.viols);
+                level_samples.extend(ex.samples);
+                for s in ex.succ {
+                    if seen.insert((s.prelude, s.dh)) {
+                        new_keys.push((s.prelude, s.dh));
+                        n_new += 1;
+                        r_distinct.push(s.dh as u64 ^ s.prelude as u64);
+                        // states of the last level are checked (in expand) but not expanded: keep one for the sample
+                        if depth + 1 < target_depth || next.is_empty() {
+                            next.push(s);
+                        }
+                    }
+                }
+            }
+        }
+        report_viols(r, level_viols); // violations of a partial level are still violations
+        if aborted {
+            for k in new_keys {
+                seen.remove(&k);
+            }
+            r.cap_hit(&format!(
+                "time budget {:.0}s hit inside depth {}; its counters are discarded; deepest fully explored depth = {}",
+                budget, depth + 1, completed
+            ));
+            break;
+        }
+        for (k, v) in level_cnt {
+            r.count(k, v);
+        }
+        for (k, j) in level_samples {
+            if sample_seen.insert(k) {
+                r.sample(j);
+            }
+        }
+        for d in r_distinct {
+            r.distinct(d);
+        }
+        // per-state cost is only meaningful when the level was large enough to keep all workers busy
+        last_cost = if frontier.len() >= 512 { (r.elapsed() - t0) / frontier.len() as f64 } else { 0.0 };
+        per_depth.push(n_new);
+        completed = depth + 1;
+        frontier = next;
+    }
+    let states: u64 = per_depth.iter().sum();
+    r.count("states", states);
+    r.extra("depth_target", json!(target_depth));
+    r.extra("depth_completed", json!(completed));
+    r.extra("new_states_per_depth", json!(per_depth));
+    r.extra("engine1_wall_s", json!(r.elapsed()));
+    if r.want_sample() && !frontier.is_empty() {
+        let s = &frontier[0];
+        r.sample(json!({"prelude": env.preludes[s.prelude].0, "deepest_history": s.hist.iter().map(|i| format!("{:?}", env.alpha[*i as usize])).collect::<Vec<_>>()}));
+    }
+
+    // ---- engine 2: stateright parallel BFS over the same transition system, same depth
+    let t1 = r.elapsed();
+    let transitions = Arc::new(AtomicU64::new(0));
+    let sr_budget = (total_budget - r.elapsed()).max(if thorough { 60.0 } else { 5.0 });
+    let checker = SrModel { env: env.clone(), transitions: transitions.clone() }
+        .checker()
+        .threads(16)
+        .target_max_depth(completed + 1) // stateright counts the start state as depth 1
+        .timeout(std::time::Duration::from_secs_f64(sr_budget))
+        .spawn_bfs()
+        .join();
+    let sr_unique = checker.unique_state_count() as u64;
+    let sr_timed_out = r.elapsed() - t1 >= sr_budget && sr_unique != states;
+    r.extra("engine", json!("in-crate level-synchronous BFS (all checks incl. failing-transition / differential continuation) + stateright 0.31 parallel BFS of the same Model (cross-check of the unique state count, state invariants as `always` property)"));
+    r.extra("stateright_unique_states", json!(sr_unique));
+    r.extra("stateright_generated_states", json!(checker.state_count()));
+    r.extra("stateright_transitions", json!(transitions.load(Ordering::Relaxed)));
+    r.extra("stateright_max_depth", json!(checker.max_depth()));
+    r.extra("stateright_wall_s", json!(r.elapsed() - t1));
+    let sr_bad = checker.discovery("wellformed and equal to the reference model").map(|p| p.into_actions());
+    if sr_timed_out {
+        r.cap_hit("stateright cross-check run timed out; state counts not compared");
+    } else {
+        if sr_unique != states && r.n_violation_signatures() > 0 {
+            // engine 1 does not explore beyond a violating state; counts differ by construction
+            r.extra("engines_agree", json!("not compared: violations found"));
+        } else if sr_unique != states {
+            println!(
+                "MACHINERY-ERROR property=C11 engines disagree on the number of unique states: in-crate BFS {} vs stateright {}",
+                states, sr_unique
+            );
+            r.extra("engines_agree", json!(false));
+            let _ = r.finish("model_checking", "engines disagree", false, &[], &[]);
+            return 2;
+        }
+        if sr_unique == states {
+            r.extra("engines_agree", json!(true));
+        }
+        let e1_state_viol = r.n_violation_signatures() > 0;
+        if sr_bad.is_some() && !e1_state_viol {
+            println!("MACHINERY-ERROR property=C11 stateright found a bad state that the in-crate BFS did not report");
+            return 2;
+        }
+    }
+    if let Some(path) = sr_bad {
+        r.extra("stateright_counterexample", json!(path.iter().map(|i| format!("{:?}", env.alpha[*i as usize])).collect::<Vec<_>>()));
+    }
+
+    let mut keys = vec!["states", "transitions", "traces_validated_against_impl", "failing_transitions", "continuations", "rollback_type_error", "reject_in_finalized_graph", "reject_in_finalized_context", "call_ok", "iterate_ok", "custom_ok"];
+    if cfg_limits {
+        keys.push("rollback_size_individual");
+        keys.push("rollback_size_total");
+    }
+    r.finish(
+        "model_checking",
+        "all histories of <= depth_completed calls from a 57-action alphabet (see `alphabet`), started from 4 prelude states (empty; finalized callee graph; context with 9708 of 10000 budget bits used; finalized graph in the other context), <= 2 graphs in ctx A, 1 in ctx B, <= 4 explored nodes per graph; executed on real Context/Graph/Node objects; a state is non-trivial/distinct by the hash of its public observation (getters + serialized contexts); every failing transition is followed by every enabled action and compared with the run without the failing call",
+        true,
+        &[
+            "names and annotations are context-level metadata: a finalized graph in an unfinalized context still accepts set_name / add_annotation on its nodes (the library's own deserializer relies on this); 'a finalized graph rejects every mutation' is checked for node-adding calls and set_output_node, finalize() of a finalized graph/context is an accepted no-op",
+            "hidden state is only detectable through later public behaviour: the differential continuation looks one call ahead (every enabled action of the alphabet), chains of rejected calls included",
+            "the reference model covers the operations of the alphabet only (Input, Add, CreateTuple, Constant, Custom Not, Call, Iterate)",
+            "without the `limits` feature the size-rejection rollback paths are unreachable; only type-error rollbacks are explored",
+        ],
+        &keys,
+    )
+}
+
+pub fn replay(r: &Report, rec: &J) -> i32 {
+    std::env::set_var("RUST_LIB_BACKTRACE", "0");
+    let case = &rec["case"];
+    let sig = rec["signature"].as_str().unwrap_or("");
+    let cfg_limits = cfg!(feature = "limits");
+    if case["check"] == "probe" {
+        let p = probe_limits();
+        println!("expected: input i32[300] rejected (limits build = {}); observed: {}", cfg_limits, if p { "rejected" } else { "accepted" });
+        return (cfg_limits && !p) as i32;
+    }
+    if case["limits_build"].as_bool() != Some(cfg_limits) {
+        println!("MACHINERY-ERROR property=C11 replay record was produced by a build with limits={} , this build has limits={}", case["limits_build"], cfg_limits);
+        return 2;
+    }
+    let env = Env::new(if cfg_limits { Some(LIMITS) } else { None });
+    let prelude = case["prelude"].as_u64().unwrap_or(0) as usize;
+    let hist: Vec<u8> = case["history"].as_array().map(|a| a.iter().map(|x| x.as_u64().unwrap_or(0) as u8).collect()).unwrap_or_default();
+    let calls: Vec<String> = hist.iter().map(|i| env.alpha.get(*i as usize).map(|a| format!("{:?}", a)).unwrap_or_default()).collect();
+    let rec_calls: Vec<String> = case["history_calls"].as_array().map(|a| a.iter().map(|x| x.as_str().unwrap_or("").to_string()).collect()).unwrap_or_default();
+    if calls != rec_calls || prelude >= env.preludes.len() {
+        println!("MACHINERY-ERROR property=C11 replay record does not match the current alphabet");
+        return 2;
+    }
+    // state of the history: model by model replay, dump hash from the real objects
+    let (mut st, o0) = match env.init(prelude) {
+        Ok(x) => x,
+        Err(e) => {
+            println!("MACHINERY-ERROR property=C11 {}", e);
+            return 2;
+        }
+    };
+    let mut found: Vec<Viol> = vec![];
+    if hist.is_empty() && case["check"] == "state" {
+        let mut pr = vec![];
+        env.check_state(&st.model, &o0, "init", &mut pr);
+        for (s, w) in pr {
+            found.push(Viol { sig: s, what: w, case: J::Null });
+        }
+    }
+    for i in hist.iter() {
+        let _ = st.model.apply(&env.alpha[*i as usize]);
+        st.hist.push(*i);
+    }
+    println!("prelude: {} {:?}", env.preludes[prelude].0, env.preludes[prelude].1);
+    println!("history: {:?}", calls);
+    match env.build(prelude, &st.hist).and_then(|w| observe(&w, false)) {
+        Ok(o) => st.dh = o.hash(),
+        Err(e) => {
+            println!("observed: history cannot be replayed: {}", e);
+            return (sig == "C11:replay-nondeterministic") as i32;
+        }
+    }
+    let action = case["action"].as_u64().map(|x| x as usize);
+    let cont = case["continuation"].as_u64().map(|x| x as usize);
+    if case["check"] == "chain" {
+        let chain: Vec<usize> = case["chain"].as_array().map(|a| a.iter().map(|x| x.as_u64().unwrap_or(0) as usize).collect()).unwrap_or_default();
+        let (f, a) = (action.unwrap_or(0), cont.unwrap_or(0));
+        let run = |pre: &[usize]| -> Option<(Out, u128)> {
+            let w = env.build(prelude, &st.hist).ok()?;
+            for c in pre {
+                w.exec(&env.alpha[*c]);
+            }
+            let o = w.exec(&env.alpha[a]);
+            Some((o, observe(&w, false).ok()?.hash()))
+        };
+        let mut pre = vec![f];
+        pre.extend(chain);
+        let (with, without) = (run(&pre), run(&[]));
+        println!("calls without effect first: {:?}", pre.iter().map(|c| format!("{:?}", env.alpha[*c])).collect::<Vec<_>>());
+        println!("expected (same call on the unchanged state): {:?}", without.as_ref().map(|x| (x.0.show(), format!("{:032x}", x.1))));
+        println!("observed: {:?}", with.as_ref().map(|x| (x.0.show(), format!("{:032x}", x.1))));
+        return (with != without) as i32;
+    }
+    if let Some(a) = action {
+        println!("call under test: {:?}{}", env.alpha[a], cont.map(|c| format!(" then {:?}", env.alpha[c])).unwrap_or_default());
+        found.extend(env.expand(&st, Some((a, cont))).viols);
+    }
+    let mut hit = false;
+    for v in found.iter() {
+        println!("observed violation [{}]: {}", v.sig, v.what);
+        hit |= v.sig == sig;
+    }
+    if !hit {
+        println!("expected signature {} did not reproduce ({} other violations)", sig, found.len());
+    }
+    let _ = r;
+    hit as i32
 }
